@@ -232,6 +232,30 @@ def infohashAsBase16 (ih : Str) : Except MErr Str :=
       | none => .error (.internal "binascii.Error")                    -- Non-base32 digit found
       | some ds => .ok (((b16Digits (b32Quanta ds)).map hexDigitUpper).map asciiLower)
 
+/-! ## histories that also *use* the object
+    `Magnet.torrent()` and the conversions inside `get_info()` (tracker request, comparison with a
+    fetched torrent) call `_infohash_as_base16()`, which reads the value the object holds *at that
+    moment*: the code keeps no memo of an earlier conversion. -/
+
+inductive UseOp where
+  | assign (op : HashOp) | convert
+  deriving Repr
+
+/-- what one step of such a history shows: the error of an assignment, or the result of the
+    conversion (`unset` = the object holds nothing yet: cannot happen on a constructed object) -/
+inductive UseObs where
+  | assigned (err : Option MErr) | converted (r : Except MErr Str) | unset
+
+def runUse (st : HState) : List UseOp → List UseObs × HState
+  | [] => ([], st)
+  | .assign op :: ops =>
+    let r := stepHash st op
+    let rs := runUse r.2 ops
+    (.assigned r.1 :: rs.1, rs.2)
+  | .convert :: ops =>
+    let rs := runUse st ops
+    ((match st with | some s => .converted (infohashAsBase16 s) | none => .unset) :: rs.1, rs.2)
+
 /-! ## get_info -/
 
 /-- `urllib.parse.quote_from_bytes(bs)` with the default `safe='/'` -/
